@@ -159,6 +159,15 @@ func (o *storeHandler) changeHandler(id string, before, after interface{}) {
 		if rid == "" {
 			return
 		}
+	} else if o.def != nil {
+		// Without a transformer, a missing value is served as the default
+		// value as well, so that is what the change is compared against.
+		if before == nil {
+			before = o.def
+		}
+		if after == nil {
+			after = o.def
+		}
 	}
 
 	r, err := o.s.Resource(rid)
